@@ -12,29 +12,32 @@ LEAN_MODULES = ["QbiceVerif.Props.C07"]
 DRIVER = "drv_persist"
 HARNESS_BIN = "persist"
 HARNESS_FEATURES = ""
-SINGLE = ["f1", "f14"]
+SINGLE = []   # F1 / F14 are fixed in /repo (2abe9f6, b832249): no known-finding toggle is left for attribution
 PARTIAL = [
-    "restart_transparent / restart_no_exec / restart_sound are proved in full for the CORE model (programs of input and "
-    "normal queries with ordered reads and dynamic dependency sets — the fragment of C01's theorem): any number of "
-    "restarts at arbitrary positions leaves values, set_input results and executor invocations of every operation "
-    "unchanged, and the outputs are the from-scratch ones.  For the FULL model (firewall / projection / external nodes, "
-    "backward projection, unordered groups) transparency is NOT a theorem: it is false as the code is "
-    "(restart_mid_epoch_witness, finding F20: a mid-epoch restart loses the per-epoch dirtied_queries set, observable "
-    "once known finding F1 has verified a stale node; with F1 repaired in the model the witness history is transparent) "
-    "and is not proved for the repaired configuration; there it is covered by the correspondence only.",
+    "restart_transparent / restart_no_exec / restart_sound are proved in full on the core model Qbice.Core (inputs, "
+    "normal queries, externals, unordered groups), restart_transparent_fw in full and restart_sound_fw_partial (programs "
+    "without a projection over a projection, as C01's theorem) on the extended core model Qbice.CoreFw (all five kinds): "
+    "any number of restarts at arbitrary positions leaves values, set_input results and the executor invocations of "
+    "every round unchanged, and the outputs are the from-scratch ones.  These models have no walk order of "
+    "backward-edge sets and no per-epoch dirtied set.  For the FULL sequential model (Model/Engine.lean: hash-set walk "
+    "orders, dirtied_queries, computing table) transparency is not a theorem: it is tied to the code by the "
+    "correspondence; restart_mid_epoch_witness records that it was false before the F1 fix (former finding F20) and "
+    "holds on that history now.",
+    "executor invocations across a restart are equal only up to finding F13 (known_findings.d/C07.json): projection "
+    "nodes re-executed by backward projection depend on the walk order of a backward-edge set, which differs after the "
+    "set was reloaded from the store; attributed only when all values are from-scratch, only projection nodes differ, "
+    "at a choice point of the model, and the model is transparent under each fixed order.",
     "store_is_image / reload_is_restart take as hypothesis that every change of the stored part has been published "
     "(syncedB) and restart_loses_only_dirtied that nothing is in flight (Quiescent); for the full model both are "
     "validated by the Lean driver after every operation of every generated history (` !unsynced` / ` !busy` flags in "
     "the compared stream), not proved as invariants of the mutual recursion.",
     "the batch of a publication is the difference of the persistent images before and after it, per stored map; which "
     "Rust call writes which cell is tied to the code by the correspondence (values, executor invocations, number of "
-    "logical batches at every shutdown, byte-equality of the final store with and without restarts, and — C08 — one "
-    "reopened engine per prefix of the commit log), not by a theorem.",
-    "sequential histories only: sessions are opened only when no query is running.  With a session opened while a "
-    "reader is still publishing the property is violated by the code as it is (finding F8, reproduced: mode f8 of the "
-    "harness; fixed by the F5 lock-first reordering handled by the C04 check).",
-    "restarts right after concurrent or cancelled work are not generated (every history is driven by one task); the "
-    "thorough tier repeats a sample on the real RocksDB backend only (not Fjall).",
+    "logical batches at every shutdown up to the first walk-order choice point, byte-equality of the final store with "
+    "and without restarts, and — C08 — one reopened engine per prefix of the commit log), not by a theorem.",
+    "sequential histories only: sessions are opened only when no query is running; the one concurrent scenario (former "
+    "finding F8, fixed in /repo by the lock-first reordering) is replayed by every run (mode f8).  Restarts right after "
+    "concurrent or cancelled work are not generated; the thorough tier repeats a sample on RocksDB only (not Fjall).",
     "vacuum thread of the interner, spawn_blocking drops at shutdown, RocksDB/Fjall themselves are outside the model.",
 ]
 ASSUMPTIONS = [
@@ -123,7 +126,7 @@ def run_shard(binpath, mode, seed, tier, n, outdir, replay=None, extra=()):
     if p.returncode != 0:
         return {"error": f"harness exited {p.returncode}: {p.stdout[-2000:]}"}
     outs = {}
-    for name, args in [("asis", []), ("desc", ["desc"])] + [(t, [t]) for t in SINGLE] + [("all", ALL)]:
+    for name, args in [("asis", []), ("desc", ["desc"])]:
         path = os.path.join(outdir, f"model_{name}.txt")
         rc, err = vlib.run_driver("drv_persist", os.path.join(outdir, "ops.txt"), path, args)
         if rc != 0:
@@ -138,68 +141,73 @@ def is_op(l):
     return l.startswith(("session", "round", "restart", "crash", "shutdown"))
 
 
-def analyse(sh, values_only_after_crash=False):
-    """tie (model vs implementation) + from-scratch oracle, case by case"""
+def values_agree(ops, impl, model, idx, first_choice):
+    """order-sensitive case: values of every operation agree; after the first choice point the batch counts (and hence
+    which image a `crash L` line addresses) depend on the walk order and are not compared"""
+    skip_next_round = False
+    for j in idx:
+        o = ops[j]
+        if j > first_choice and o.startswith(("restart", "shutdown")): continue
+        if j > first_choice and o.startswith("crash"):
+            skip_next_round = impl[j] != model[j]
+            continue
+        if o.startswith("round") and skip_next_round:
+            skip_next_round = False
+            continue
+        if ec.vals(impl[j]) != ec.vals(model[j]): return False
+    return True
+
+
+def analyse(sh):
+    """tie (model vs implementation) + from-scratch oracle, case by case.  No attribution is left: a value that is
+    not the from-scratch value — before or after a restart / crash — is a violation."""
     ops, impl, exp = sh["ops"], sh["impl"], sh["expect"]
     raw = sh["models"]["asis"]
     asis = [ec.strip(l) for l in raw]
     desc = [ec.strip(l) for l in sh["models"]["desc"]]
-    tog = {k: [ec.strip(l) for l in v] for k, v in sh["models"].items() if k not in ("asis", "desc")}
     res = {"cases": 0, "lines": 0, "disagree": [], "order_sensitive_cases": 0, "order_matched_desc": 0, "order_unresolved": 0,
-           "impl_fail_cases": 0, "impl_fail_attributed": {}, "impl_fail_unexplained": [], "fail_by_case": {}}
+           "impl_fail_cases": 0, "impl_fail": []}
     for (a, b) in ec.split_cases(ops):
         idx = [i for i in range(a, b) if is_op(ops[i])]
         if not idx: continue
         res["cases"] += 1
         res["lines"] += len(idx)
         text = "\n".join(ops[a:b])
-        # after a crash line only values are part of the property; executions are still compared for the tie
-        def cmp_line(x, y, i):
-            return x == y
         order_sensitive = any(raw[i].endswith(" ~") for i in idx) or any(desc[i] != asis[i] for i in idx)
         if order_sensitive: res["order_sensitive_cases"] += 1
-        dis = [i for i in idx if not cmp_line(impl[i], asis[i], i)]
-        # from-scratch oracle on values
-        vidx = [i for i in idx if ops[i].startswith(("session", "round"))]
-        bad = [i for i in vidx if ec.vals(impl[i]) != exp[i]]
-        model_ok = all(ec.vals(asis[i]) == exp[i] for i in vidx)
-        rep_ok = all(ec.vals(tog["all"][i]) == exp[i] for i in vidx)
+        dis = [i for i in idx if impl[i] != asis[i]]
+        # the number of batches published after a choice point depends on the walk order too (a projection that is
+        # reached first as a callee is cleaned — one `clean_query` batch — where the walk would have re-executed it)
+        first_choice = min([i for i in idx if raw[i].endswith(" ~") or desc[i] != asis[i]], default=len(ops))
         if dis:
             i = dis[0]
             if order_sensitive and all(impl[j] == desc[j] for j in idx): res["order_matched_desc"] += 1
-            elif order_sensitive: res["order_unresolved"] += 1
-            elif rep_ok and (bad or not model_ok):
-                # a known C01 finding (F1/F14) manifests on one side only: the code runs the reads of an unordered
-                # group concurrently and walks firewall sets in hash order, the model in list / key order; excused only
-                # because the model with the known findings repaired meets the from-scratch oracle on the whole case
-                # (same rule as tools/props/engine_common.py)
-                res["excused_disagree"] = res.get("excused_disagree", 0) + 1
+            elif order_sensitive and values_agree(ops, impl, asis, idx, first_choice):
+                # the code walked a >= 2-element firewall / projection set in an order that is neither ascending nor
+                # descending (the model cannot reproduce it): values agree, invocations are judged by the oracle only
+                res["order_unresolved"] += 1
             else: res["disagree"].append({"case": text, "op": ops[i], "impl": impl[i], "model": asis[i]})
+        # from-scratch oracle on values
+        vidx = [i for i in idx if ops[i].startswith(("session", "round"))]
+        bad = [i for i in vidx if ec.vals(impl[i]) != exp[i]]
         if bad:
             res["impl_fail_cases"] += 1
-            who = None
-            for t in SINGLE + ["all"]:
-                if all(ec.vals(tog[t][i]) == exp[i] for i in vidx): who = t; break
-            if who is None and (all(ec.vals(impl[i]) == ec.vals(asis[i]) for i in vidx) or all(ec.vals(impl[i]) == ec.vals(desc[i]) for i in vidx)):
-                who = "model"
-            rec = {"case": text, "line": ops[bad[0]], "impl": impl[bad[0]], "expected": exp[bad[0]], "who": who}
-            res["fail_by_case"][text] = rec
-            if who: res["impl_fail_attributed"].setdefault(who, []).append(rec)
-            else: res["impl_fail_unexplained"].append(rec)
+            res["impl_fail"].append({"case": text, "line": ops[bad[0]], "impl": impl[bad[0]], "expected": exp[bad[0]]})
     return res
 
 
 def classify_restart_difference(ctx, case_text, tag):
-    """A case where the run WITH restarts differs from the run WITHOUT (values or executor invocations).
-    Returns (class, explanation):
-      "order-choice"   both runs are exactly what the as-is model predicts under one of its two walk orders of an
-                       unordered set (>= 2 backward projections / firewall callees), and under a FIXED order the model
-                       says the restarts change nothing: the code walked a hash set in another order after reloading it
-                       from the store — the order is not part of any contract;
-      "dirtied-effect" the as-is model predicts both runs exactly and says the restart itself changes the behaviour
-                       (the volatile per-epoch `dirtied_queries` set), AND the run without restarts already violates
-                       the from-scratch oracle (known finding F1/F14 manifested before): finding F20;
-      None             anything else: a violation."""
+    """A case where the executor invocations of the run WITH restarts differ from the run WITHOUT.
+    Returns ("F13", why) iff ALL of:
+      * every value (and set_input result) of both runs is the from-scratch one (so the two runs return the same values);
+      * the invocation multisets differ only in PROJECTION nodes;
+      * the difference is at a choice point of backward projection: the as-is model, which is transparent to restarts
+        under a FIXED walk order of the backward-projection set, marks the operation as walking a >= 2-element set, and
+        (when the set has two elements) the two runs are exactly the model's two walk orders.
+    That is finding F13 (C03: backward projection re-executes every projection above a changed firewall
+    unconditionally) seen through a restart: the backward-edge set is reloaded from the store in another order, and
+    whether a projection is re-executed by backward projection or merely cleaned as a callee of one that ran before it
+    depends on that order.  Anything else: (None, why) = a violation."""
     d = os.path.join(ctx.work, f"attr-{tag}")
     os.makedirs(d, exist_ok=True)
     rp = os.path.join(d, "case.txt")
@@ -208,39 +216,50 @@ def classify_restart_difference(ctx, case_text, tag):
     sh = run_shard(binpath, "c07", 0, "quick", None, d, replay=rp)
     if "error" in sh: return None, sh["error"]
     ops, impl, exp = sh["ops"], sh["impl"], sh["expect"]
-    mb = {"asis": [ec.strip(l) for l in sh["models"]["asis"]], "desc": [ec.strip(l) for l in sh["models"]["desc"]]}
-    sensitive = any(l.endswith(" ~") for l in sh["models"]["asis"]) or mb["asis"] != mb["desc"]
+    kinds = {l.split()[1]: l.split()[2] for l in ops if l.startswith("node ")}
+    raw_b = sh["models"]["asis"]
+    mb = {"asis": [ec.strip(l) for l in raw_b], "desc": [ec.strip(l) for l in sh["models"]["desc"]]}
     idx = [i for i in range(len(ops)) if ops[i].startswith(("session", "round"))]
-    # the run without restarts: strip the restart lines and ask the model again
-    nr = [l for l in ops if l != "restart"]
+    nr = [l for l in ops if l not in ("restart", "shutdown")]
     nr_ops = os.path.join(d, "ops_norestart.txt")
-    nr = [l for l in nr if l != "shutdown"]
     open(nr_ops, "w").write("\n".join(nr))
-    ma = {}
+    ma, raw_a = {}, []
     for name, args in (("asis", []), ("desc", ["desc"])):
         mp = os.path.join(d, f"model_norestart_{name}.txt")
         rc, err = vlib.run_driver("drv_persist", nr_ops, mp, args)
         if rc != 0: return None, err
-        ma[name] = [ec.strip(l) for l in open(mp).read().split("\n")]
-        sensitive = sensitive or any(l.endswith(" ~") for l in open(mp).read().split("\n"))
-    a_impl = [l.split("\t")[1] for l in open(os.path.join(d, "norestart.txt")).read().split("\n") if "\t" in l]
+        lines = open(mp).read().split("\n")
+        if name == "asis": raw_a = lines
+        ma[name] = [ec.strip(l) for l in lines]
+    # the two runs as the harness observed them (the walk order of a reloaded set is timing dependent: a replay need not
+    # reproduce the same pair); the replay above is used for the op list and the from-scratch expectations only
+    a_impl = [l.split("\t")[2] for l in case_text.split("\n") if l.startswith("#A\t")]
+    b_impl = [l.split("\t")[2] for l in case_text.split("\n") if l.startswith("#B\t")]
     k = [i for i in range(len(nr)) if nr[i].startswith(("session", "round"))]
-    if len(a_impl) != len(k) or len(k) != len(idx): return None, "the two runs stopped at different operations"
-    b_line = {o: [m[i] for i in idx] for o, m in mb.items()}      # model, with restarts, per op
-    a_line = {o: [m[i] for i in k] for o, m in ma.items()}        # model, without
-    b_impl = [impl[i] for i in idx]
-    b_ok = [o for o in ("asis", "desc") if b_line[o] == b_impl]
-    a_ok = [o for o in ("asis", "desc") if a_line[o] == a_impl]
-    if not b_ok or not a_ok:
-        return None, f"model==impl with restarts: {bool(b_ok)}; without: {bool(a_ok)}"
-    transparent_in_model = all(a_line[o] == b_line[o] for o in ("asis", "desc"))
-    if transparent_in_model:
-        if sensitive: return "order-choice", "under a fixed walk order the model says the restarts change nothing; the two runs match the model's two orders"
-        return None, "model transparent and no order choice point, yet the runs differ"
-    a_bad = any(ec.vals(a_impl[j]) != exp[idx[j]] for j in range(len(idx)))
-    if a_bad:
-        return "dirtied-effect", "the as-is model predicts both runs and the change; the run without restarts already violates the from-scratch oracle (F1/F14)"
-    return None, "the model predicts a restart effect on a history whose run without restarts is correct"
+    if len(a_impl) != len(k) or len(b_impl) != len(idx) or len(k) != len(idx): return None, "the two runs stopped at different operations"
+    if a_impl == b_impl: return None, "no difference recorded"
+    # (1) values
+    for j in range(len(idx)):
+        if ec.vals(b_impl[j]) != exp[idx[j]] or ec.vals(a_impl[j]) != exp[idx[j]]:
+            return None, f"a value is not the from-scratch one at `{ops[idx[j]]}`"
+    # (2) only projection nodes, (3) at a choice point
+    execs = lambda l: sorted(l.split(" |", 1)[1].split()) if " |" in l else []
+    for j in range(len(idx)):
+        ea, eb = execs(a_impl[j]), execs(b_impl[j])
+        if ea == eb: continue
+        diff = [x for x in set(ea) | set(eb) if ea.count(x) != eb.count(x)]
+        if any(kinds.get(x) != "pj" for x in diff):
+            return None, f"`{ops[idx[j]]}`: invocations of non-projection nodes differ: {sorted(diff)}"
+        if not (raw_b[idx[j]].endswith(" ~") or raw_a[k[j]].endswith(" ~")):
+            return None, f"`{ops[idx[j]]}`: invocations differ {ea} vs {eb} but the model walks no unordered set there"
+    transparent = all([ma[o][i] for i in k] == [mb[o][i] for i in idx] for o in ("asis", "desc"))
+    if not transparent:
+        return None, "the model itself is not transparent to the restarts under a fixed walk order"
+    b_ok = [o for o in ("asis", "desc") if [mb[o][i] for i in idx] == b_impl]
+    a_ok = [o for o in ("asis", "desc") if [ma[o][i] for i in k] == a_impl]
+    return "F13", ("values equal and from-scratch; only projection nodes differ, at a backward-projection choice point; " +
+                   (f"the runs are the model's {a_ok[0]} (without) and {b_ok[0]} (with restarts) walk orders" if a_ok and b_ok
+                    else "the code's walk order of a > 2-element set is not one of the model's two"))
 
 
 def collect(ctx, mode, n_quick, n_thorough, extra=()):
@@ -279,12 +298,7 @@ def collect(ctx, mode, n_quick, n_thorough, extra=()):
     dist["order_sensitive_cases_matching_descending_model"] = sum(a["order_matched_desc"] for a in an)
     dist["order_sensitive_cases_matching_neither_order_(oracle_only)"] = sum(a["order_unresolved"] for a in an)
     dist["cases_compared_strictly"] = sum(a["cases"] - a["order_sensitive_cases"] for a in an)
-    dist["disagreements_excused_by_known_C01_finding_on_one_side"] = sum(a.get("excused_disagree", 0) for a in an)
     dist["cases_where_impl_violates_from_scratch_oracle"] = sum(a["impl_fail_cases"] for a in an)
-    for a in an:
-        for who, recs in a["impl_fail_attributed"].items():
-            k = f"from_scratch_failures_attributed_to_{who}"
-            dist[k] = dist.get(k, 0) + len(recs)
     res.distribution = dist
     for a in an:
         for d in a["disagree"]:
@@ -300,25 +314,20 @@ def run(ctx):
         for f in r["oracle_failures"]:
             f = dict(f)
             key = (f["sig"], f["case"])
-            if key in seen:       # the corpus is replayed by every shard
-                continue
+            if key in seen: continue
             seen[key] = True
-            if f["sig"] in ("C07:value-differs", "C07:exec-differs", "C07:exec-more-after-restart", "C07:exec-reads-differ") and n_attr < 24:
+            if f["sig"] in ("C07:exec-differs", "C07:exec-more-after-restart") and n_attr < 40:
                 n_attr += 1
                 cls, why = classify_restart_difference(ctx, f["case"], str(n_attr))
                 f["desc"] += f" [{why}]"
-                if cls == "order-choice":
-                    res.distribution["restart_differences_explained_by_set_walk_order"] = res.distribution.get("restart_differences_explained_by_set_walk_order", 0) + 1
-                    continue
-                if cls == "dirtied-effect":
-                    f["sig"] = "C07:F20:restart-resets-dirtied-set-after-F1"
+                if cls == "F13":
+                    f["sig"] = "C07:F13:projection-reexecution-depends-on-reload-order"
+                    res.distribution["restart_differences_attributed_to_F13"] = res.distribution.get("restart_differences_attributed_to_F13", 0) + 1
             res.oracle_failures.append(f)
-    # from-scratch failures are C01's unless the run without restarts does not have them — then the harness has
-    # reported the difference above.  Unexplained ones (no toggle repairs them and the model does not predict them)
-    # are reported here too.
+    # any value that is not the from-scratch one is a violation (no known finding of C01 is left to attribute it to)
     for a in an:
-        for r in a["impl_fail_unexplained"]:
-            res.oracle_failures.append({"sig": "C07:value-unexplained", "desc": f"{r['line']} -> {r['impl']} expected {r['expected']} (not predicted by the model, not repaired by a known-finding toggle)", "case": r["case"]})
+        for r in a["impl_fail"]:
+            res.oracle_failures.append({"sig": "C07:value", "desc": f"{r['line']} -> {r['impl']} expected {r['expected']}", "case": r["case"]})
     if not ctx.replay:
         f8_scenario(ctx, res)
     if not ctx.quick() and not ctx.replay:
